@@ -7,6 +7,7 @@ import FfuzzyProofs.Properties.C08
 import FfuzzyProofs.Properties.C09
 import FfuzzyProofs.Properties.C16
 import FfuzzyProofs.Properties.C17
+import FfuzzyProofs.Properties.C04
 namespace Ffuzzy.C02
 open Ffuzzy
 
@@ -198,6 +199,20 @@ theorem compareEasy_eq (cfg : Cfg) (l r : List UInt8) (a b : FH) (n1 n2 : Nat)
     (hl : FH.parse cfg FULL_SIZE true l = .ok (a, n1)) (hr : FH.parse cfg FULL_SIZE true r = .ok (b, n2)) :
     compareEasy cfg l r = .ok (FH.compare a b) := by
   unfold compareEasy; rw [hl, hr]
+
+/-- **C02 (string front end, full).** on every pair of texts: an error naming the failing side when
+    one does not parse, otherwise the specified score of the two parsed (valid, normalised) long hashes -/
+theorem compareEasy_eq_spec (cfg : Cfg) (l r : List UInt8) :
+    (∃ e, compareEasy cfg l r = .error e) ∨
+    (∃ a b n1 n2, FH.parse cfg FULL_SIZE true l = .ok (a, n1) ∧ FH.parse cfg FULL_SIZE true r = .ok (b, n2) ∧
+      FH.Valid FULL_SIZE true a ∧ FH.Valid FULL_SIZE true b ∧ compareEasy cfg l r = .ok (specScore a b)) := by
+  rcases C04.parse_total cfg FULL_SIZE true l (by decide) with ⟨e, he⟩ | ⟨a, n1, ha, hva⟩
+  · left; exact ⟨(false, e), by unfold compareEasy; rw [he]⟩
+  · rcases C04.parse_total cfg FULL_SIZE true r (by decide) with ⟨e, he⟩ | ⟨b, n2, hb, hvb⟩
+    · left; exact ⟨(true, e), by unfold compareEasy; rw [ha, he]⟩
+    · right
+      refine ⟨a, b, n1, n2, ha, hb, hva, hvb, ?_⟩
+      rw [compareEasy_eq cfg l r a b n1 n2 ha hb, compare_eq_spec FULL_SIZE (by decide) a b hva hvb]
 
 /-- non-vacuity: two concrete valid hashes with a non-trivial score -/
 example : ∃ a b : FH, FH.Valid 32 true a ∧ FH.Valid 32 true b ∧ FH.compare a b = specScore a b :=
